@@ -197,6 +197,9 @@ func (t DataType) goValue(endian binary.ByteOrder, bs []byte) (interface{}, erro
 		if len(bs) == 0 {
 			return nil, nil
 		}
+		if len(bs) != 4 {
+			return nil, fmt.Errorf("invalid length for %v: %d", t, len(bs))
+		}
 
 		x := int32(endian.Uint32(bs))
 		days := asetime.ASEDuration(x) * asetime.Day
@@ -247,6 +250,9 @@ func (t DataType) goValue(endian binary.ByteOrder, bs []byte) (interface{}, erro
 	case BIGDATETIMEN:
 		if len(bs) == 0 {
 			return nil, nil
+		}
+		if len(bs) != 8 {
+			return nil, fmt.Errorf("invalid length for %v: %d", t, len(bs))
 		}
 
 		dur := asetime.ASEDuration(endian.Uint64(bs))
